@@ -170,21 +170,23 @@ Proof.
     destruct (N.eqb_spec (bid x) id); [contradiction|reflexivity].
 Qed.
 
-(* a live block went through acceptBlockHeader: it is at least BLOCK_VALID_TREE *)
-Definition lvP (s : status) : Prop := deleted s = false -> (1 <= level s)%N.
+(* a live block went through acceptBlockHeader: it is at least BLOCK_VALID_TREE;
+   a removed block does not carry BLOCK_FAILED_POP (deleteTemporarily drops it) *)
+Definition lvP (s : status) : Prop :=
+  (deleted s = false -> (1 <= level s)%N) /\ (deleted s = true -> fpop s = false).
 Definition lv_ok (l : list blk) : Prop := Forall (fun x => lvP (bst x)) l.
 
-(* failure flags agree pointwise (and the level property is carried over) *)
-Definition fl_eq (l l' : list blk) : Prop :=
+(* weak relation: same skeleton, same FAILED_CHILD, failed-ness may only shrink, level property carried over *)
+Definition fl_le (l l' : list blk) : Prop :=
   Forall2 (fun x y => skel x = skel y /\ (failed (bst y) = true -> failed (bst x) = true)
                       /\ fchild (bst x) = fchild (bst y) /\ (lvP (bst x) -> lvP (bst y))) l l'.
 
-Lemma fl_eq_skel l l' : fl_eq l l' -> same_skel l l'.
+Lemma fl_le_skel l l' : fl_le l l' -> same_skel l l'.
 Proof.
   induction 1; [reflexivity|]. unfold same_skel in *. simpl. destruct H as (H & _). congruence.
 Qed.
 
-Lemma fl_eq_find l l' : fl_eq l l' -> forall p y, find_blk p l = Some y ->
+Lemma fl_le_find l l' : fl_le l l' -> forall p y, find_blk p l = Some y ->
   exists y', find_blk p l' = Some y' /\ (failed (bst y') = true -> failed (bst y) = true) /\ skel y = skel y'.
 Proof.
   induction 1 as [|x x' r r' Hx Hr IH]; intros p y F; simpl in *; [discriminate|].
@@ -195,7 +197,7 @@ Proof.
   - apply IH; auto.
 Qed.
 
-Lemma fl_eq_ok l l' : fl_eq l l' -> fl_ok l -> fl_ok l'.
+Lemma fl_le_ok l l' : fl_le l l' -> fl_ok l -> fl_ok l'.
 Proof.
   induction 1 as [|x x' r r' Hx Hr IH]; simpl; auto.
   intros (Fr & Fx). split; auto.
@@ -203,46 +205,78 @@ Proof.
   assert (P : bparent x = bparent x') by (unfold skel in Hs; congruence). rewrite <- P.
   destruct (bparent x) as [p|]; [|auto].
   destruct (find_blk p r) as [y|] eqn:E; [|contradiction].
-  destruct (fl_eq_find _ _ Hr p y E) as (y' & E' & Hf' & _). rewrite E'. intros Fy. rewrite <- Hc. auto.
+  destruct (fl_le_find _ _ Hr p y E) as (y' & E' & Hf' & _). rewrite E'. intros Fy. rewrite <- Hc. auto.
 Qed.
 
-Lemma fl_eq_refl l : fl_eq l l.
+Lemma fl_le_refl l : fl_le l l.
 Proof. induction l; constructor; auto. Qed.
 
-Lemma fl_eq_lv l l' : fl_eq l l' -> lv_ok l -> lv_ok l'.
+Lemma fl_le_lv l l' : fl_le l l' -> lv_ok l -> lv_ok l'.
 Proof.
   unfold lv_ok. induction 1 as [|x y r r' Hxy Hr IH]; intros L; constructor; inversion L; subst.
   - destruct Hxy as (_&_&_&H). auto.
   - auto.
 Qed.
+Lemma fl_le_trans a b c : fl_le a b -> fl_le b c -> fl_le a c.
+Proof.
+  intros H; revert c. induction H as [|x y l l' Hxy Hl IH]; intros c H2; inversion H2 as [|y' z l2 l3 Hyz Hl2]; subst; constructor.
+  - destruct Hxy as (S1&F1&C1&L1), Hyz as (S2&F2&C2&L2). split; [congruence|]. split; [auto|]. split; [congruence|auto].
+  - apply IH. exact Hl2.
+Qed.
+
+(* strong relation: the three failure flags agree pointwise (and the level property is carried over) *)
+Definition fl_eq (l l' : list blk) : Prop :=
+  Forall2 (fun x y => skel x = skel y /\ fblock (bst x) = fblock (bst y) /\ fpop (bst x) = fpop (bst y)
+                      /\ fchild (bst x) = fchild (bst y) /\ (lvP (bst x) -> lvP (bst y))
+                      /\ deleted (bst x) = deleted (bst y)) l l'.
+
+Lemma fl_eq_le l l' : fl_eq l l' -> fl_le l l'.
+Proof.
+  induction 1 as [|x y r r' H Hr IH]; constructor; auto.
+  destruct H as (Hs & Hb & Hp & Hc & Hl & Hd). split; [auto|]. split; [|split; auto]. unfold failed. rewrite Hb, Hp, Hc. auto.
+Qed.
+Lemma fl_eq_skel l l' : fl_eq l l' -> same_skel l l'.
+Proof. intros H. apply fl_le_skel, fl_eq_le, H. Qed.
+Lemma fl_eq_ok l l' : fl_eq l l' -> fl_ok l -> fl_ok l'.
+Proof. intros H. apply fl_le_ok, fl_eq_le, H. Qed.
+Lemma fl_eq_lv l l' : fl_eq l l' -> lv_ok l -> lv_ok l'.
+Proof. intros H. apply fl_le_lv, fl_eq_le, H. Qed.
+Lemma fl_eq_refl l : fl_eq l l.
+Proof. induction l; constructor; auto. (split; [|split; [|split; [|split; [|split]]]]); auto. Qed.
 Lemma fl_eq_trans a b c : fl_eq a b -> fl_eq b c -> fl_eq a c.
 Proof.
   intros H; revert c. induction H as [|x y l l' Hxy Hl IH]; intros c H2; inversion H2 as [|y' z l2 l3 Hyz Hl2]; subst; constructor.
-  - destruct Hxy as (?&?&?&?), Hyz as (?&?&?&?). repeat split; try congruence; auto.
+  - destruct Hxy as (S1&B1&P1&C1&L1&D1), Hyz as (S2&B2&P2&C2&L2&D2). (split; [|split; [|split; [|split; [|split]]]]); try congruence. auto.
   - apply IH. exact Hl2.
+Qed.
+Lemma fl_eq_sym_flags l l' : fl_eq l l' -> forall p y, find_blk p l = Some y ->
+  exists y', find_blk p l' = Some y' /\ fblock (bst y') = fblock (bst y) /\ fpop (bst y') = fpop (bst y)
+             /\ fchild (bst y') = fchild (bst y) /\ skel y = skel y' /\ deleted (bst y') = deleted (bst y).
+Proof.
+  induction 1 as [|x x' r r' Hx Hr IH]; intros p y F; simpl in *; [discriminate|].
+  destruct Hx as (Hs & Hb & Hp & Hc & Hl & Hd).
+  assert (E : bid x = bid x') by (unfold skel in Hs; congruence). rewrite <- E.
+  destruct (N.eqb_spec (bid x) p).
+  - inversion F; subst y. exists x'. repeat split; auto.
+  - apply IH; auto.
 Qed.
 
 (* an update that does not touch the failure flags *)
 Definition keeps_fl (f : status -> status) : Prop :=
-  forall s, (failed (f s) = true -> failed s = true) /\ fchild (f s) = fchild s /\ (lvP s -> lvP (f s)).
+  forall s, fblock (f s) = fblock s /\ fpop (f s) = fpop s /\ fchild (f s) = fchild s /\ (lvP s -> lvP (f s))
+            /\ deleted (f s) = deleted s.
 
 Lemma upd_fl_eq id f l : keeps_fl f -> fl_eq l (upd id f l).
 Proof.
   intros K. induction l as [|x r IH]; simpl; constructor; auto.
-  destruct (bid x =? id)%N; simpl; auto.
-  destruct (K (bst x)) as (?&?&?). repeat split; auto.
+  destruct (K (bst x)) as (?&?&?&?&?).
+  destruct (bid x =? id)%N; simpl; (split; [|split; [|split; [|split; [|split]]]]); auto.
 Qed.
 
 Lemma keeps_set_level v : (1 <= v)%N -> keeps_fl (set_level v).
-Proof. intros V s; repeat split; auto. intros _ _; exact V. Qed.
-Lemma keeps_set_active v : keeps_fl (set_active v). Proof. intros s; repeat split; auto. Qed.
-Lemma keeps_set_haspl v : keeps_fl (set_haspl v). Proof. intros s; repeat split; auto. Qed.
-Lemma keeps_st_delete : keeps_fl st_delete.
-Proof.
-  intros s; repeat split; auto.
-  - unfold failed; simpl. destruct (fblock s), (fpop s), (fchild s); auto.
-  - intros _ H; discriminate.
-Qed.
+Proof. intros V s; (split; [|split; [|split; [|split]]]); auto. intros [H1 H2]; split; simpl; auto. Qed.
+Lemma keeps_set_active v : keeps_fl (set_active v). Proof. intros s; (split; [|split; [|split; [|split]]]); auto. Qed.
+Lemma keeps_set_haspl v : keeps_fl (set_haspl v). Proof. intros s; (split; [|split; [|split; [|split]]]); auto. Qed.
 
 (* heights depend on the skeleton only *)
 Lemma same_skel_ht l : forall l', same_skel l l' -> ht_ok l -> ht_ok l'.
